@@ -32,6 +32,7 @@ type Sched struct {
 	parked  []int // label at which each thread is parked
 	Trace   [][2]int
 	Obs     []int           // Observe() after each step (aligned with Trace)
+	Enabled [][]int         // enabled threads before each step (aligned with Trace)
 	Observe func() int
 	OnStep  func(tid, label int)
 	Blocked func(tid int, point int) bool // optional: thread parked at point cannot be resumed now
@@ -133,6 +134,7 @@ func (s *Sched) Run(n int, choose func(enabled []int) int, maxSteps int) bool {
 			break
 		}
 		t := choose(enabled)
+		s.Enabled = append(s.Enabled, append([]int(nil), enabled...))
 		s.resume[t] <- struct{}{}
 		ev, ok := s.waitEvent()
 		if !ok {
@@ -221,4 +223,90 @@ func replayChooser(choices []int) func([]int) int {
 		}
 		return en[0]
 	}
+}
+
+
+// nonPreemptive continues the running thread while it is enabled, else the lowest enabled one.
+func nonPreemptiveAfter(prefix []int) func([]int) int {
+	i := 0
+	last := -1
+	return func(en []int) int {
+		if i < len(prefix) {
+			c := prefix[i]
+			i++
+			for _, e := range en {
+				if e == c {
+					last = c
+					return c
+				}
+			}
+		}
+		i++
+		for _, e := range en {
+			if e == last {
+				return e
+			}
+		}
+		last = en[0]
+		return last
+	}
+}
+
+// Explore enumerates schedules systematically (depth-first over alternative choices) with a bound on
+// the number of preemptions (switching away from a thread that is still enabled). runOnce executes
+// the case under the given chooser and returns the choices made and the enabled sets.
+func Explore(bound, maxRuns int, runOnce func(chooser func([]int) int) (choices []int, enabled [][]int)) int {
+	type item struct {
+		prefix []int
+	}
+	stack := []item{{nil}}
+	seen := map[string]bool{}
+	runs := 0
+	for len(stack) > 0 && runs < maxRuns {
+		it := stack[len(stack)-1]
+		stack = stack[:len(stack)-1]
+		key := fmt.Sprint(it.prefix)
+		if seen[key] {
+			continue
+		}
+		seen[key] = true
+		choices, enabled := runOnce(nonPreemptiveAfter(it.prefix))
+		runs++
+		// count preemptions along the executed schedule and branch after the prefix
+		pre := 0
+		for pos := 0; pos < len(choices); pos++ {
+			if pos > 0 && choices[pos] != choices[pos-1] {
+				for _, e := range enabled[pos] {
+					if e == choices[pos-1] {
+						pre++
+					}
+				}
+			}
+			if pos < len(it.prefix) {
+				continue
+			}
+			for _, alt := range enabled[pos] {
+				if alt == choices[pos] {
+					continue
+				}
+				cost := pre
+				if pos > 0 {
+					stillEnabled := false
+					for _, e := range enabled[pos] {
+						if e == choices[pos-1] {
+							stillEnabled = true
+						}
+					}
+					if stillEnabled && alt != choices[pos-1] && choices[pos] == choices[pos-1] {
+						cost++
+					}
+				}
+				if cost <= bound {
+					np := append(append([]int(nil), choices[:pos]...), alt)
+					stack = append(stack, item{np})
+				}
+			}
+		}
+	}
+	return runs
 }
